@@ -80,7 +80,7 @@ JudgeRun(obs) ==
          : j \in { j \in stubs : W[j].parsed /\ dirOf(j) # W[j].pymodule } }
   \cup { [property |-> "C10", clause |-> "Base", sig |-> "basename:" \o W[j].kind, expected |-> ToString(bases(j)), observed |-> W[j].base]
          : j \in { j \in stubs : W[j].parsed /\ W[j].base \notin bases(j) } }
-  \cup { [property |-> "C10", clause |-> "NoClobber", sig |-> "overwritten:" \o W[k].kind \o "-over-" \o W[j].kind, expected |-> W[j].digest, observed |-> W[k].digest]
+  \cup { [property |-> "C10", clause |-> "NoClobber", sig |-> "overwritten:" \o W[k].kind \o "-over-" \o W[j].kind \o (IF W[k].shape = "" THEN "" ELSE ":" \o W[k].shape), expected |-> W[j].digest, observed |-> W[k].digest]
          : <<j, k>> \in { p \in idx \X idx : p[1] < p[2] /\ W[p[1]].path = W[p[2]].path /\ W[p[2]].mode # "a" /\ W[p[1]].digest # W[p[2]].digest } }
   \cup { [property |-> "C10", clause |-> "NoClobber", sig |-> "first-write-appends:" \o W[j].kind, expected |-> "w", observed |-> W[j].mode \o " " \o W[j].path]
          : j \in { j \in idx : W[j].isstub /\ W[j].mode = "a" /\ \A k \in 1..(j - 1) : W[k].path # W[j].path } }
